@@ -121,6 +121,7 @@ func (source *dataSource) mergeParent(
 	// aggregate items from the pipe progressing the docIndex beyond the first item
 	// for example, if the child is sorted.
 	source.pipeNode.docIndex = source.lastParentDocIndex
+	source.pipeNode.fieldCount = 0
 	defer func() {
 		source.lastParentDocIndex = source.pipeNode.docIndex
 	}()
@@ -151,6 +152,8 @@ func (source *dataSource) appendChild(
 	// if it is filtered out by a child filter.  The parent will always exist, but may be
 	// processed after the child if inner sorts shift the order.
 	source.pipeNode.docIndex = source.lastChildDocIndex
+	// the child maps its own fields (sub-selections, aggregates) beyond those of the collection
+	source.pipeNode.fieldCount = source.childSource.DocumentMap().GetNextIndex()
 	defer func() {
 		source.lastChildDocIndex = source.pipeNode.docIndex
 	}()
